@@ -73,11 +73,22 @@ pub fn run(args: &Args, tier: &str, seed: u64, backend: &str) -> Report {
                     };
                     let srv = Server::start(Some(cfg)).expect("tls server");
                     let mut n = 0u32;
+                    // target scheme: thorough = both spellings of a TLS target for every cell; quick = one per cell, chosen by a hash of the cell and the seed
+                    let schemes: &[&str] = if tier == "thorough" { &["ipps", "https"] } else { &[""] };
+                    for scheme_dim in schemes {
                     for kind in [Kind::Blocking, Kind::Async] {
                         for ignore in IGNORE {
                             for root in ROOTS {
                                 n += 1;
-                                let cell = format!("{:?}/{backend}/ignore={ignore:?}/root={root}/leaf={leaf}/{vname}", kind);
+                                let base_cell = format!("{:?}/{backend}/ignore={ignore:?}/root={root}/leaf={leaf}/{vname}", kind);
+                                let mut scheme: &str = if scheme_dim.is_empty() { if (vkit::rng::hash64(base_cell.as_bytes()) ^ seed) & 1 == 0 { "https" } else { "ipps" } } else { scheme_dim };
+                                // replay of one cell: the spelling recorded with the cell wins over the seed-dependent choice
+                                if let Some(o) = only.as_ref() {
+                                    if scheme_dim.is_empty() || *scheme_dim == "ipps" {
+                                        if o == &format!("{base_cell}/https") { scheme = "https"; } else if o == &format!("{base_cell}/ipps") { scheme = "ipps"; }
+                                    }
+                                }
+                                let cell = format!("{base_cell}/{scheme}");
                                 let id = format!("{leaf}{n}");
                                 if only.as_ref().map(|o| o != &cell).unwrap_or(false) {
                                     continue;
@@ -86,7 +97,7 @@ pub fn run(args: &Args, tier: &str, seed: u64, backend: &str) -> Report {
                                 let resp = response.clone();
                                 srv.on(&id, Arc::new(move |_r: &Req| Plan::ok(resp.clone())));
                                 let events_before = srv.log.lock().unwrap().len();
-                                let scheme = if n % 2 == 0 { "https" } else { "ipps" };
+                                rep_m.lock().unwrap().seen("target_schemes", scheme);
                                 let uri = format!("{scheme}://localhost:{}/case/{id}/ipp/print", srv.port);
                                 let ccfg = ClientCfg { ignore_tls: ignore, ca: root_bytes(root), timeout_ms: Some(30_000), ..ClientCfg::default() };
                                 let mut req = mirror::to_ipp(&request(n));
@@ -151,6 +162,7 @@ pub fn run(args: &Args, tier: &str, seed: u64, backend: &str) -> Report {
                             }
                         }
                     }
+                    }
                     srv.stop();
                 });
             }
@@ -158,9 +170,9 @@ pub fn run(args: &Args, tier: &str, seed: u64, backend: &str) -> Report {
     }
     let mut rep = rep_m.into_inner().unwrap();
     rep.extra.insert("tls_backend_of_this_build".into(), J::Str(backend.to_string()));
-    rep.rule = format!("Complete matrix for the {backend} build: {{blocking, async}} x ignore_tls_errors {{unset, false, true}} x extra root {{none, correct CA as PEM, as DER, unrelated CA, second (tiny Ed25519, DER < 256 bytes) CA as PEM, as DER}} x server certificate {{valid for localhost, wrong host name, expired, self-signed, signed by an unknown CA, valid under the second CA, expired less than a minute before the run}} = 252 cells per TLS backend (thorough: x {{1.2+1.3, 1.2-only, 1.3-only}} peers), against a loopback rustls peer with freshly generated CAs. Oracle: accept <=> ignore == true or the supplied root (PEM or DER) is the one the valid leaf chains to; in every rejected cell the peer application must have received zero decrypted bytes. The other backend's 120 cells come from the second build (merged by the driver).");
+    rep.rule = format!("Complete matrix for the {backend} build: {{blocking, async}} x ignore_tls_errors {{unset, false, true}} x extra root {{none, correct CA as PEM, as DER, unrelated CA, second (tiny Ed25519, DER < 256 bytes and ending in a 0x0a octet) CA as PEM, as DER}} x server certificate {{valid for localhost, wrong host name, expired, self-signed, signed by an unknown CA, valid under the second CA, expired less than a minute before the run}} = 252 cells per TLS backend, the target written ipps:// or https:// (quick: one spelling per cell chosen by cell hash and seed; thorough: both, x {{1.2+1.3, 1.2-only, 1.3-only}} peers), against a loopback rustls peer with freshly generated CAs. Oracle: accept <=> ignore == true or the supplied root (PEM or DER) is the one the valid leaf chains to; in every rejected cell the peer application must have received zero decrypted bytes. The other backend's 120 cells come from the second build (merged by the driver).");
     if only.is_none() {
-        rep.require(rep.evaluations as usize >= 252 * version_sets.len(), "all cells of the matrix executed");
+        rep.require(rep.evaluations as usize >= 252 * version_sets.len() * if tier == "thorough" { 2 } else { 1 }, "all cells of the matrix executed");
     }
     rep.assumptions.push("trust decisions are those of OpenSSL / rustls as shipped in this image; system roots do not vouch for the freshly generated CAs".into());
     rep
